@@ -13,6 +13,7 @@ import Valida.Spec.Ser
 import Valida.Dsl
 import Valida.Eq
 import ValidaProofs.Lemmas.Basic
+import ValidaProofs.Lemmas.C11RoundLeaf
 import ValidaProofs.C11
 namespace ValidaProofs
 open Valida ValidaGen
@@ -34,6 +35,28 @@ def NamedType (v : PyVal) : Prop := ∃ t n, v = .type t ∧ (t, n) ∈ invDtype
 def LeafRT (l : Leaf Arg) : Prop :=
   ∃ js, leafToJson l = .ok js ∧ ∀ fuel, parseCond (fuel + 3) js = .ok (.leaf l)
 
+/-- caller-chosen keyword names (`items_contain(**items)`) that do not make the written mapping
+    `{name: value…}` look like a data-path spec to `from_spec`: no name contains the escape code
+    `\path`; and if there is exactly one name, it is ASCII (the model's `str.lower`) and its first
+    dot-token, lower-cased, is not `path` -/
+def PlainKwNames (kw : List (String × PyVal)) : Prop :=
+  (∀ kv ∈ kw, containsSub "\\path" kv.1 = false) ∧
+  (∀ k v, kw = [(k, v)] →
+    isAscii k = true ∧
+    (splitDot k).head?.map (fun t => String.ofList (t.toList.map Char.toLower)) ≠ some "path")
+
+-- STATEMENT CHANGED: hypothesis `hkeys` added (finding D11).  For a var-keyword constructor
+-- (`items_contain(**items)`) the keyword names are chosen by the caller and the serialiser writes them
+-- as the keys of a mapping, which `from_spec` first tries to read as a data-path spec.  Counterexamples
+-- (evaluated on the model; all other hypotheses hold):
+--   `Value.items_contain(path=1)`  is written `{"value.items_contain": {"path": 1}}` and
+--       `parseCond 6` of that is `.error .typeError` (`DataPath.from_spec` iterates over `1`);
+--   `Value.items_contain(path="ab")`  →  `.error .malformedCond`;
+--   `Value.items_contain(**{"\\path": 1})`  is read back as `items_contain(path=1)`, another condition;
+--   `Value.items_contain(**{"a\\pathb": 1, "c": 2})`  is read back with the name `apathb`.
+-- The hypothesis is only about var-keyword constructors; for all others the theorem is as before.
+-- (A non-ASCII single name makes the *model* answer `unmodelled` – `pyLower` is ASCII-only –, hence
+-- `isAscii`; with several names only the escape code matters.)
 /-- **Every DSL condition with scalar literal arguments round-trips** – classes without the `type`
     pre-processor, callables other than the two instance tests; any constructor of the class (an
     alias included), positional and keyword arguments as the signature admits (whenever the DSL
@@ -43,9 +66,33 @@ theorem C11_leaf_roundtrip (cls : CClass) (info : CondClassInfo) (c : Ctor)
     (hinfo : cls.info = .ok info) (hcls : cls ≠ .null) (hpre : info.pre ≠ "type")
     (hc : c ∈ ctorsOf info) (hfn : c.target ≠ "is_instance" ∧ c.target ≠ "keys_is_instance")
     (hpos : ∀ v ∈ pos, ScalarLit v) (hkw : ∀ kv ∈ kw, ScalarLit kv.2)
+    (hkeys : c.varKw.isSome = true → PlainKwNames kw)
     (hl : buildLeaf Arg.lit cls c (pos.map Arg.lit) (kw.map (fun kv => (kv.1, Arg.lit kv.2))) = .ok l) :
     LeafRT l := by
-  sorry
+  have hnull : (cls == .null) = false := by simpa using hcls
+  have hsc : ∀ v, ScalarLit v → C11R.scalarB v = true := by
+    intro v hv; cases v <;> first | rfl | exact hv.elim
+  refine C11R.rt_plain cls info c hinfo hnull (C11R.facts_at cls info c hinfo hnull hc)
+    (by simp [C11R.isInst, hpre, hfn.1, hfn.2]) _ _ l ?_ ?_ ?_ hl
+  · intro a ha
+    obtain ⟨v, hv, rfl⟩ := List.mem_map.mp ha
+    exact ⟨v, rfl, hsc v (hpos v hv)⟩
+  · intro kv hkv
+    obtain ⟨kv', hkv', rfl⟩ := List.mem_map.mp hkv
+    exact ⟨kv'.2, rfl, hsc _ (hkw kv' hkv')⟩
+  · intro hvk
+    obtain ⟨h1, h2⟩ := hkeys hvk
+    rw [List.map_map]
+    refine ⟨?_, ?_⟩
+    · intro k hk
+      obtain ⟨kv, hkv, rfl⟩ := List.mem_map.mp hk
+      exact h1 kv hkv
+    · intro k hk
+      match kw, hk, h2 with
+      | [(k', v)], hk, h2 =>
+        simp only [List.map_cons, List.map_nil, Function.comp_apply, List.cons.injEq, and_true] at hk
+        subst hk
+        exact h2 k' v rfl
 
 /-- … and with named type objects as arguments, for the dtype classes (`equal_to(T)`,
     `not_equal_to(T)`) and the two instance tests (`is_instance(T…)`, `keys_is_instance(T…)`) -/
@@ -58,7 +105,172 @@ theorem C11_leaf_roundtrip_types (cls : CClass) (info : CondClassInfo) (c : Ctor
     (hpos : ∀ v ∈ pos, NamedType v)
     (hl : buildLeaf Arg.lit cls c (pos.map Arg.lit) [] = .ok l) :
     LeafRT l := by
-  sorry
+  have hnull : (cls == .null) = false := by simpa using hcls
+  have hf := C11R.facts_at cls info c hinfo hnull hc
+  have hty : ∀ v ∈ pos, C11R.TypeRT v := by
+    intro v hv
+    obtain ⟨t, n, rfl, hn⟩ := hpos v hv
+    exact C11R.typeRT_of_named t n hn
+  rcases hdom with ⟨hpre, htarget, hlen⟩ | ⟨hpre, htarget⟩
+  · match pos, hlen, hty, hl with
+    | [x], _, hty, hl =>
+      exact C11R.rt_types_eq cls info c hinfo hnull hf hpre htarget (.lit x) l
+        ⟨x, rfl, hty x (by simp)⟩ hl
+  · refine C11R.rt_types_inst cls info c hinfo hnull hf hpre htarget _ l ?_ hl
+    intro a ha
+    obtain ⟨v, hv, rfl⟩ := List.mem_map.mp ha
+    exact ⟨v, rfl, hty v hv⟩
+
+/-! ### non-vacuity: the hypotheses hold for concrete DSL calls (kernel-evaluated Bool helpers) -/
+
+def scalarLitB : PyVal → Bool
+  | .none | .bool _ | .int _ | .float _ | .str _ => true
+  | _ => false
+
+def plainKwNamesB (kw : List (String × PyVal)) : Bool :=
+  kw.all (fun kv => !containsSub "\\path" kv.1) &&
+  (match kw with
+   | [(k, _)] =>
+      isAscii k && ((splitDot k).head?.map (fun t => String.ofList (t.toList.map Char.toLower)) != some "path")
+   | _ => true)
+
+def buildsB (cls : CClass) (c : Ctor) (pos : List PyVal) (kw : List (String × PyVal)) : Bool :=
+  match buildLeaf Arg.lit cls c (pos.map Arg.lit) (kw.map (fun kv => (kv.1, Arg.lit kv.2))) with
+  | .ok _ => true
+  | .error _ => false
+
+/-- every hypothesis of `C11_leaf_roundtrip` for the DSL call `cls.name(*pos, **kw)` -/
+def leafHypsB (cls : CClass) (name : String) (pos : List PyVal) (kw : List (String × PyVal)) : Bool :=
+  match cls.info with
+  | .ok info =>
+    cls != .null && info.pre != "type" &&
+    (match (ctorsOf info).find? (fun c => c.name == name) with
+     | some c =>
+        c.target != "is_instance" && c.target != "keys_is_instance" &&
+        pos.all scalarLitB && kw.all (fun kv => scalarLitB kv.2) &&
+        (!c.varKw.isSome || plainKwNamesB kw) && buildsB cls c pos kw
+     | none => false)
+  | .error _ => false
+
+theorem leafHypsB_sound (cls : CClass) (name : String) (pos : List PyVal) (kw : List (String × PyVal))
+    (h : leafHypsB cls name pos kw = true) :
+    ∃ info c l, cls.info = .ok info ∧ cls ≠ .null ∧ info.pre ≠ "type" ∧ c ∈ ctorsOf info ∧
+      (ctorsOf info).find? (fun c => c.name == name) = some c ∧
+      (c.target ≠ "is_instance" ∧ c.target ≠ "keys_is_instance") ∧
+      (∀ v ∈ pos, ScalarLit v) ∧ (∀ kv ∈ kw, ScalarLit kv.2) ∧ (c.varKw.isSome = true → PlainKwNames kw) ∧
+      buildLeaf Arg.lit cls c (pos.map Arg.lit) (kw.map (fun kv => (kv.1, Arg.lit kv.2))) = .ok l := by
+  have hsc : ∀ v, scalarLitB v = true → ScalarLit v := by
+    intro v hv; cases v <;> first | trivial | cases hv
+  unfold leafHypsB at h
+  split at h
+  · rename_i info hinfo
+    split at h
+    · rename_i c hfind
+      simp only [Bool.and_eq_true, bne_iff_ne, ne_eq, List.all_eq_true, Bool.or_eq_true, Bool.not_eq_true'] at h
+      obtain ⟨⟨hn, hp⟩, ⟨⟨⟨⟨⟨ht1, ht2⟩, hpos⟩, hkw⟩, hkeys⟩, hb⟩⟩ := h
+      unfold buildsB at hb
+      split at hb
+      · rename_i l hl
+        refine ⟨info, c, l, hinfo, hn, hp, List.mem_of_find?_eq_some hfind, hfind, ⟨ht1, ht2⟩,
+          fun v hv => hsc v (hpos v hv), fun kv hkv => hsc _ (hkw kv hkv), ?_, hl⟩
+        intro hvk
+        rcases hkeys with hk | hk
+        · rw [hvk] at hk; cases hk
+        · unfold plainKwNamesB at hk
+          simp only [Bool.and_eq_true, List.all_eq_true, Bool.not_eq_true'] at hk
+          refine ⟨hk.1, ?_⟩
+          intro k v hkv
+          subst hkv
+          simpa using hk.2
+      · cases hb
+    · simp at h
+  · cases h
+
+/-- the round trip stated for DSL calls by constructor name -/
+theorem C11_call_roundtrip (cls : CClass) (name : String) (pos : List PyVal) (kw : List (String × PyVal))
+    (h : leafHypsB cls name pos kw = true) :
+    ∃ l, Dsl.call Arg.lit cls name (pos.map Arg.lit) (kw.map (fun kv => (kv.1, Arg.lit kv.2))) = .ok (.leaf l) ∧
+      LeafRT l := by
+  obtain ⟨info, c, l, hinfo, hcls, hpre, hc, hfind, hfn, hpos, hkw, hkeys, hl⟩ := leafHypsB_sound cls name pos kw h
+  refine ⟨l, ?_, C11_leaf_roundtrip cls info c pos kw l hinfo hcls hpre hc hfn hpos hkw hkeys hl⟩
+  have hb : (cls == CClass.null) = false := by simpa using hcls
+  simp [Dsl.call, findCtor, hinfo, hfind, hb, hl, bind, Except.bind, pure, Except.pure]
+
+/-- `Value.in_range(1, 5)` -/
+example : leafHypsB .value "in_range" [.int 1, .int 5] [] = true := by decide +kernel
+/-- `Key.equal_to("a")` -/
+example : leafHypsB .key "equal_to" [.str "a"] [] = true := by decide +kernel
+/-- `ValueLength.less_than(3)` -/
+example : leafHypsB .valueLength "less_than" [.int 3] [] = true := by decide +kernel
+/-- `Value.equal_to_approx(1.5)` (default tolerance); 1.5 in units of 2^-1074 -/
+example : leafHypsB .value "equal_to_approx" [.float (3 * 2 ^ 1073)] [] = true := by decide +kernel
+/-- `Value.items_contain(a=1)` -/
+example : leafHypsB .value "items_contain" [] [("a", .int 1)] = true := by decide +kernel
+/-- … and the key check is not vacuous: `Value.items_contain(path=1)` is refused -/
+example : leafHypsB .value "items_contain" [] [("path", .int 1)] = false := by decide +kernel
+
+def namedTypeB : PyVal → Bool
+  | .type t => invDtypeLookup.any (fun p => p.1 == t)
+  | _ => false
+
+/-- every hypothesis of `C11_leaf_roundtrip_types` for the DSL call `cls.name(*pos)` -/
+def typesHypsB (cls : CClass) (name : String) (pos : List PyVal) : Bool :=
+  match cls.info with
+  | .ok info =>
+    cls != .null &&
+    (match (ctorsOf info).find? (fun c => c.name == name) with
+     | some c =>
+        ((info.pre == "type" && (c.target == "equal_to" || c.target == "not_equal_to") && pos.length == 1) ||
+         (info.pre != "type" && (c.target == "is_instance" || c.target == "keys_is_instance"))) &&
+        pos.all namedTypeB && buildsB cls c pos []
+     | none => false)
+  | .error _ => false
+
+theorem typesHypsB_sound (cls : CClass) (name : String) (pos : List PyVal) (h : typesHypsB cls name pos = true) :
+    ∃ info c l, cls.info = .ok info ∧ cls ≠ .null ∧ c ∈ ctorsOf info ∧
+      (ctorsOf info).find? (fun c => c.name == name) = some c ∧
+      ((info.pre = "type" ∧ (c.target = "equal_to" ∨ c.target = "not_equal_to") ∧ pos.length = 1) ∨
+       (info.pre ≠ "type" ∧ (c.target = "is_instance" ∨ c.target = "keys_is_instance"))) ∧
+      (∀ v ∈ pos, NamedType v) ∧
+      buildLeaf Arg.lit cls c (pos.map Arg.lit) [] = .ok l := by
+  have hnt : ∀ v, namedTypeB v = true → NamedType v := by
+    intro v hv
+    cases v <;> try (cases hv)
+    rename_i t
+    simp only [namedTypeB, List.any_eq_true, beq_iff_eq] at hv
+    obtain ⟨⟨t', n⟩, hm, rfl⟩ := hv
+    exact ⟨t', n, rfl, hm⟩
+  unfold typesHypsB at h
+  split at h
+  · rename_i info hinfo
+    split at h
+    · rename_i c hfind
+      simp only [Bool.and_eq_true, bne_iff_ne, ne_eq, List.all_eq_true, Bool.or_eq_true, beq_iff_eq] at h
+      obtain ⟨hn, ⟨hdom, hpos⟩, hb⟩ := h
+      unfold buildsB at hb
+      split at hb
+      · rename_i l hl
+        refine ⟨info, c, l, hinfo, hn, List.mem_of_find?_eq_some hfind, hfind, ?_,
+          fun v hv => hnt v (hpos v hv), hl⟩
+        rcases hdom with ⟨⟨h1, h2⟩, h3⟩ | ⟨h1, h2⟩
+        · exact Or.inl ⟨h1, h2, h3⟩
+        · exact Or.inr ⟨h1, h2⟩
+      · cases hb
+    · simp at h
+  · cases h
+
+theorem C11_call_roundtrip_types (cls : CClass) (name : String) (pos : List PyVal)
+    (h : typesHypsB cls name pos = true) :
+    ∃ l, Dsl.call Arg.lit cls name (pos.map Arg.lit) [] = .ok (.leaf l) ∧ LeafRT l := by
+  obtain ⟨info, c, l, hinfo, hcls, hc, hfind, hdom, hpos, hl⟩ := typesHypsB_sound cls name pos h
+  refine ⟨l, ?_, C11_leaf_roundtrip_types cls info c pos l hinfo hcls hc hdom hpos hl⟩
+  have hb : (cls == CClass.null) = false := by simpa using hcls
+  simp [Dsl.call, findCtor, hinfo, hfind, hb, hl, bind, Except.bind, pure, Except.pure]
+
+/-- `ValueDataType.equal_to(int)` -/
+example : typesHypsB .valueDataType "equal_to" [.type .int] = true := by decide +kernel
+/-- `Value.is_instance(int, str)` -/
+example : typesHypsB .value "is_instance" [.type .int, .type .str] = true := by decide +kernel
 
 /-- depth of a tree (fuel the parser needs) -/
 def Cond.depthA : Cond Arg → Nat
@@ -75,6 +287,60 @@ def WFTree : Cond Arg → Prop
     nested `{op: [left, right]}` mappings and read back as the same tree. -/
 theorem C11_tree_roundtrip (c : Cond Arg) (hwf : WFTree c) (hleaves : ∀ l ∈ c.leaves, LeafRT l) :
     ∃ js, condToJson c = .ok js ∧ ∀ fuel, parseCond (fuel + Cond.depthA c + 3) js = .ok c := by
-  sorry
+  induction c with
+  | leaf l =>
+    obtain ⟨js, h1, h2⟩ := hleaves l (by simp [Cond.leaves])
+    exact ⟨js, h1, fun fuel => h2 fuel⟩
+  | bin op a b iha ihb =>
+    obtain ⟨wa, wb, na, _, hmk⟩ := hwf
+    obtain ⟨ja, ha1, ha2⟩ := iha wa (fun l hl => hleaves l (by simp [Cond.leaves, hl]))
+    obtain ⟨jb, hb1, hb2⟩ := ihb wb (fun l hl => hleaves l (by simp [Cond.leaves, hl]))
+    refine ⟨.dict [(.str op.symbol, .list [ja, jb])], ?_, ?_⟩
+    · simp [condToJson, ha1, hb1, bind, Except.bind, pure, Except.pure]
+    · intro fuel
+      have hfa : parseCond (fuel + max (Cond.depthA a) (Cond.depthA b) + 3) ja = .ok a := by
+        have := ha2 (fuel + (max (Cond.depthA a) (Cond.depthA b) - Cond.depthA a))
+        rwa [show fuel + (max (Cond.depthA a) (Cond.depthA b) - Cond.depthA a) + Cond.depthA a + 3 =
+          fuel + max (Cond.depthA a) (Cond.depthA b) + 3 by omega] at this
+      have hfb : parseCond (fuel + max (Cond.depthA a) (Cond.depthA b) + 3) jb = .ok b := by
+        have := hb2 (fuel + (max (Cond.depthA a) (Cond.depthA b) - Cond.depthA b))
+        rwa [show fuel + (max (Cond.depthA a) (Cond.depthA b) - Cond.depthA b) + Cond.depthA b + 3 =
+          fuel + max (Cond.depthA a) (Cond.depthA b) + 3 by omega] at this
+      have h := (C11_bin _ op a b ja jb a b ha1 hb1 hfa hfb na).2
+      rw [hmk] at h
+      rw [show fuel + Cond.depthA (.bin op a b) + 3 = fuel + max (Cond.depthA a) (Cond.depthA b) + 3 + 1 by
+        simp only [Cond.depthA]; omega]
+      exact h
+
+/-- non-vacuity of the tree theorem: `Value.in_range(1, 5) & Value.truthy()` round-trips (both
+    leaves through `C11_leaf_roundtrip`, by way of `C11_call_roundtrip`) -/
+example :
+    let t : Cond Arg := .bin .and
+      (.leaf { cls := .value, fn := "in_range", args := [],
+               kwargs := [("lower", .lit (.int 1)), ("upper", .lit (.int 5))] })
+      (.leaf { cls := .value, fn := "truthy", args := [], kwargs := [] })
+    ∃ js, condToJson t = .ok js ∧ ∀ fuel, parseCond (fuel + 1 + 3) js = .ok t := by
+  intro t
+  refine C11_tree_roundtrip t ⟨trivial, trivial, rfl, rfl, rfl⟩ ?_
+  intro l hl
+  simp only [t, Cond.leaves, List.cons_append, List.nil_append, List.mem_cons, List.not_mem_nil, or_false] at hl
+  rcases hl with rfl | rfl
+  · obtain ⟨l, h1, h2⟩ := C11_call_roundtrip .value "in_range" [.int 1, .int 5] [] (by decide +kernel)
+    have : l = { cls := .value, fn := "in_range", args := [],
+                 kwargs := [("lower", .lit (.int 1)), ("upper", .lit (.int 5))] } := by
+      have h3 : Dsl.call Arg.lit .value "in_range" ([.int 1, .int 5].map Arg.lit) [] =
+          .ok (.leaf { cls := .value, fn := "in_range", args := [],
+                       kwargs := [("lower", .lit (.int 1)), ("upper", .lit (.int 5))] }) := rfl
+      rw [show ([] : List (String × PyVal)).map (fun kv => (kv.1, Arg.lit kv.2)) = [] from rfl, h3] at h1
+      cases h1; rfl
+    exact this ▸ h2
+  · obtain ⟨l, h1, h2⟩ := C11_call_roundtrip .value "truthy" [] [] (by decide +kernel)
+    have : l = { cls := .value, fn := "truthy", args := [], kwargs := [] } := by
+      have h3 : Dsl.call Arg.lit .value "truthy" [] [] =
+          .ok (.leaf { cls := .value, fn := "truthy", args := [], kwargs := [] }) := rfl
+      rw [show ([] : List (String × PyVal)).map (fun kv => (kv.1, Arg.lit kv.2)) = [] from rfl,
+        show ([] : List PyVal).map Arg.lit = [] from rfl, h3] at h1
+      cases h1; rfl
+    exact this ▸ h2
 
 end ValidaProofs
